@@ -944,9 +944,9 @@ def hostile_flood(r, idx):
                       + bytes(r.randrange(256) for _ in range(16)) for s in range(5, 9))
     elif kind == "newcid_rpt":
         # every frame retires everything issued before it: the list of pending retirements must stay bounded
-        first = r.choice([20, 30, 40])
+        first = r.choice([30, 40, 60])
         fb = b"".join(bytes([0x18]) + _var(s) + _var(s) + bytes([8]) + bytes(r.randrange(256) for _ in range(8))
-                      + bytes(r.randrange(256) for _ in range(16)) for s in range(first, first + 38))
+                      + bytes(r.randrange(256) for _ in range(16)) for s in range(first, first + 24))
     elif kind == "ackbad":
         # ACK frames whose ranges run below zero, overlap, or start above the largest acknowledged
         def ack(largest, first, more):
@@ -968,8 +968,9 @@ def hostile_flood(r, idx):
     steps = [{"do": "connect", "n": 1}, {"do": "connect", "n": 2},
              {"do": "app", "n": 2, "c": 0, "streams": [{"dir": 0, "size": 6000, "chunk": 1000, "finish": True}]},
              {"do": "run_until", "what": "connected", "max_us": 5000000}, {"do": "run", "us": 300000},
-             {"do": "mitm", "dir": "c2s" if v == "s" else "s2c", "nth_short": 0, "mode": "append", "hex": fb.hex(),
-              "count": r.choice([5, 40, 150])},
+             # long floods replace the frames of the carrying packet (appended they would exceed the link MTU)
+             {"do": "mitm", "dir": "c2s" if v == "s" else "s2c", "nth_short": 0, "mode": "replace" if len(fb) > 250 else "append",
+              "hex": fb.hex(), "count": r.choice([5, 40, 150])},
              {"do": "app", "n": 1, "c": 0, "streams": [{"dir": 0, "size": 200000, "chunk": 1000, "finish": True}]},
              {"do": "app", "n": 0, "c": 0, "streams": [{"dir": 0, "size": 200000, "chunk": 1000, "finish": True}]},
              {"do": "run", "us": 3000000}]
